@@ -183,6 +183,7 @@ static void do_req (char **w, int n) {
     c.reqlen = hx_parse (w[2], &c.req);
     if (c.reqlen < 0) { puts ("bad-op"); return; }
     set_env (w + 3, n - 3);
+    g_rnd_pos = 0;                                     /* the scripted PRNG stream restarts with every request */
     c.sendfail = (v = kv (w + 3, n - 3, "sendfail")) ? atoi (v) : 0;
     c.cut = (v = kv (w + 3, n - 3, "cut")) ? atol (v) : -1;
     if (socketpair (AF_UNIX, SOCK_STREAM, 0, sv) < 0) { puts ("bad-op"); return; }
